@@ -44,7 +44,7 @@ func selector3(kind, pct, seed int, b bbox3) func(kit.V3) bool {
 }
 
 func genSel(t *rapid.T, label string) []int {
-	return []int{rapid.IntRange(0, 2).Draw(t, label+".kind"), rapid.IntRange(0, 100).Draw(t, label+".pct"), rapid.IntRange(0, 1<<20).Draw(t, label+".seed")}
+	return []int{gen.Int(t, 0, 2, label+".kind"), gen.Int(t, 0, 100, label+".pct"), gen.Int(t, 0, 1<<20, label+".seed")}
 }
 
 func genOp3(t *rapid.T, kind string) op3 {
@@ -52,36 +52,36 @@ func genOp3(t *rapid.T, kind string) op3 {
 	switch kind {
 	case "decimate":
 		fa := 0.0
-		if rapid.Bool().Draw(t, "fa.set") {
+		if (gen.Int(t, 0, 1, "fa.set") == 1) {
 			fa = gen.LogF(t, 0.02, 3, "featureAngle")
 		}
 		mar := 0.0
-		if rapid.Bool().Draw(t, "mar.set") {
+		if (gen.Int(t, 0, 1, "mar.set") == 1) {
 			mar = gen.LogF(t, 1e-3, 0.6, "minAspect")
 		}
 		o.F = []float64{fa, gen.LogF(t, 1e-4, 0.5, "planeDist"), gen.LogF(t, 1e-4, 0.5, "boundaryDist"), mar}
 		// SplitAttempts >= 2 switches to the exhaustive search over splits: exercised by the dedicated
 		// clause C10/3d/decimate-split (genDecimateSplit overrides this field)
-		o.I = append([]int{rapid.IntRange(0, 1).Draw(t, "splitAttempts")}, genSel(t, "filter")...)
-		o.B = []bool{rapid.Bool().Draw(t, "noEdge"), rapid.Bool().Draw(t, "elimCorners"), rapid.IntRange(0, 4).Draw(t, "simple") == 0}
+		o.I = append([]int{gen.Int(t, 0, 1, "splitAttempts")}, genSel(t, "filter")...)
+		o.B = []bool{(gen.Int(t, 0, 1, "noEdge") == 1), (gen.Int(t, 0, 1, "elimCorners") == 1), gen.Int(t, 0, 4, "simple") == 0}
 	case "coplanar":
 		o.F = []float64{gen.LogF(t, 1e-12, 1e-6, "eps")}
 		o.I = genSel(t, "filter")
 	case "edges":
 		o.F = []float64{gen.LogF(t, 0.3, 3, "lenFactor"), gen.LogF(t, 0.01, 0.3, "jitter")}
-		o.I = []int{rapid.IntRange(0, 2).Draw(t, "mode"), rapid.IntRange(1, 100).Draw(t, "pct"), rapid.IntRange(0, 1<<20).Draw(t, "seed")}
+		o.I = []int{gen.Int(t, 0, 2, "mode"), gen.Int(t, 1, 100, "pct"), gen.Int(t, 0, 1<<20, "seed")}
 	case "flip":
 	case "subdiv":
-		o.I = []int{rapid.IntRange(1, 6).Draw(t, "n")}
+		o.I = []int{gen.Int(t, 1, 6, "n")}
 	case "loop":
-		o.I = []int{rapid.IntRange(1, 2).Draw(t, "iters")}
+		o.I = []int{gen.Int(t, 1, 2, "iters")}
 	case "subdivider":
 		o.F = []float64{gen.F(t, 0, 0.3, "amp")}
-		o.I = []int{rapid.IntRange(0, 2).Draw(t, "mode"), rapid.IntRange(1, 100).Draw(t, "pct"), rapid.IntRange(0, 1<<20).Draw(t, "seed"), rapid.IntRange(0, 1).Draw(t, "addFiltered")}
+		o.I = []int{gen.Int(t, 0, 2, "mode"), gen.Int(t, 1, 100, "pct"), gen.Int(t, 0, 1<<20, "seed"), gen.Int(t, 0, 1, "addFiltered")}
 	case "blur":
-		n := rapid.IntRange(1, 4).Draw(t, "nrates")
+		n := gen.Int(t, 1, 4, "nrates")
 		for i := 0; i < n; i++ {
-			switch rapid.IntRange(0, 4).Draw(t, "ratekind") {
+			switch gen.Int(t, 0, 4, "ratekind") {
 			case 0:
 				o.F = append(o.F, 0)
 			case 1:
@@ -95,24 +95,24 @@ func genOp3(t *rapid.T, kind string) op3 {
 		o.I = genSel(t, "filter")
 	case "smooth":
 		cd, cw, cf := 0.0, 0.0, 0.0
-		if rapid.IntRange(0, 2).Draw(t, "cw.set") == 0 {
+		if gen.Int(t, 0, 2, "cw.set") == 0 {
 			cw = gen.LogF(t, 0.01, 2, "cweight")
-			if rapid.Bool().Draw(t, "cd.set") {
+			if (gen.Int(t, 0, 1, "cd.set") == 1) {
 				cd = gen.LogF(t, 1e-3, 0.1, "cdist")
 			}
 		}
-		if rapid.IntRange(0, 4).Draw(t, "cf.set") == 0 {
+		if gen.Int(t, 0, 4, "cf.set") == 0 {
 			cf = gen.LogF(t, 0.01, 1, "cfunc")
 		}
 		o.F = []float64{gen.LogF(t, 1e-3, 0.3, "step"), cd, cw, cf}
-		o.I = append([]int{rapid.IntRange(0, 6).Draw(t, "iters")}, genSel(t, "hard")...)
-		o.I = append(o.I, rapid.IntRange(0, 1).Draw(t, "api"))
+		o.I = append([]int{gen.Int(t, 0, 6, "iters")}, genSel(t, "hard")...)
+		o.I = append(o.I, gen.Int(t, 0, 1, "api"))
 	case "voxel":
 		o.F = []float64{gen.LogF(t, 1e-3, 0.3, "step"), gen.LogF(t, 1e-4, 0.1, "maxDist")}
-		o.I = []int{rapid.IntRange(0, 6).Draw(t, "iters")}
+		o.I = []int{gen.Int(t, 0, 6, "iters")}
 	case "arap":
 		o.F = []float64{gen.LogF(t, 1e-3, 0.1, "disp")}
-		o.I = []int{rapid.IntRange(0, 2).Draw(t, "weights"), rapid.IntRange(1, 8).Draw(t, "ncons"), rapid.IntRange(0, 1<<20).Draw(t, "seed")}
+		o.I = []int{gen.Int(t, 0, 2, "weights"), gen.Int(t, 1, 8, "ncons"), gen.Int(t, 0, 1<<20, "seed")}
 	default:
 		panic("c10: unknown op kind " + kind)
 	}
